@@ -8,6 +8,8 @@ Monitors (installed from the harness around the real methods):
     execute()/cancel() on randomly chosen final orders, and issues cancel-all while market orders are queued;
   * the set {o in get_active_orders(sym) | o.is_active} and count_active_orders(sym) are compared with the model set
     'added to the store and not final';
+  * right after every OrdersState.update_active_orders() (the pruning step the simulators call once per strategy step) the
+    unfiltered get_active_orders() list must hold no final order;
   * every executed order must be a member of exactly one trade (closed trades + the open trade).
 """
 import random
@@ -27,7 +29,7 @@ ASSUMPTIONS = ['a quiescent point is a strategy before()/after()/terminate() hoo
                'margin, closed trades, open-trade tables, liquidation counter and the order\'s own fields']
 MIN_OBS = {'calls_on_final_orders': 1000, 'injected_calls': 200, 'simulator_duplicate_calls': 20,
            'cancel_all_with_queued_market': 50, 'active_set_comparisons': 2000, 'trade_membership_checks': 200,
-           'terminal_transitions': 2000}
+           'terminal_transitions': 2000, 'pruned_list_checks': 2000}
 
 M = {'on': False}
 
@@ -129,6 +131,22 @@ def install():
         return r
 
     OrdersState.add_order = add_order
+    inner_upd = OrdersState.update_active_orders
+
+    def update_active_orders(self, exchange, symbol):
+        r = inner_upd(self, exchange, symbol)
+        if M['on']:
+            # the pruning step: right after it, the unfiltered active list holds no final order
+            lst = self.get_active_orders(exchange, symbol)
+            M['cnt']['pruned_list_checks'] = M['cnt'].get('pruned_list_checks', 0) + 1
+            stale = [o for o in lst if o.status in ('EXECUTED', 'CANCELED')]
+            if stale:
+                _viol('final_order_left_in_active_list_after_pruning',
+                      f'{exchange}-{symbol}: get_active_orders still holds {len(stale)} final orders right after update_active_orders '
+                      f'({[(o.type, o.side, o.price, o.status) for o in stale][:4]})', stale[0])
+        return r
+
+    OrdersState.update_active_orders = update_active_orders
 
 
 def _viol(key, msg, order=None):
